@@ -45,7 +45,7 @@ func init() {
 			"distinct_nontrivial = distinct (definition, argv) cases inside the specified territory",
 		defs:     defsC02,
 		alpha:    []string{"a", "5", "1.5", "k=v", "k=a=b", "=v", "1..3", "3..1", "", "-", "--", "--x", "-5", "c", "--m", "--m=a", "--m=5", "--m=k=v", "--m=k=w=z", "--m=1..3", "-m", "--zz"},
-		alphaExt: []string{"010", "08", "007..010", "--m=010", "0x1F", "1e2", "+5", "1_0"}, // numerals on which Go's decimal conversion and other readings (octal, hex, float) disagree
+		alphaExt: []string{"010", "08", "007..010", "--m=010", "0x1F", "1e2", "+5", "1_0", "-mx", "-xm", "--m=-2..1", "+1..+3"}, // numerals on which Go's decimal conversion and other readings (octal, hex, float) disagree; bundles in which the multi-value letter is not the last one; signed range ends
 		depthQ:   4, depthT: 4,
 		facets: ph.Facets{Err: true, ErrDetail: true, Remaining: true, Vals: true, Called: true, CalledAs: true},
 		extra: func(pc *parserCase, info specInfo) ([]string, []string) {
